@@ -38,7 +38,7 @@ def gen_case(ctx, i):
         S, C = int(r.integers(1, 3)), int(r.integers(1, 4))
         if r.random() < 0.12:  # large batches: more than 64 / 128 / 256 valid peaks refined in one call, counts not multiples of a block size
             S, C = int(r.integers(4, 18)), int(r.integers(5, 17))
-        patch = int(r.choice([3, 5, 7]))
+        patch = int(r.choice([3, 5, 7, 4, 6, 2]))
         H, W = int(r.integers(patch + 2, 20)), int(r.integers(patch + 2, 20))
         maps = np.zeros((S, C, H, W), np.float32)
         yy, xx = np.mgrid[0:H, 0:W]
